@@ -44,7 +44,19 @@ def generate(cfg, timeout=900):
         h = gen.header(f"model/{cfg}/{i}", data["dev"], Fraction(1), data["wlmax"], lws, autosplit=data["autosplit"],
                        flags={"comp": True, "norm": False})
         ops = []
+        lims = [[0, 6], [1, 8]]
         for st in b["ops"]:
+            if st["op"]["op"] == "setlimits":
+                # one assignment per labware whose limits differ; the model's verdict goes with the last one
+                new = [list(x) for x in st["op"]["lims"]]
+                changed = [k for k in range(2) if new[k] != lims[k]]
+                for j, k in enumerate(changed):
+                    o = {"op": "setlimits", "lw": k, "minv": new[k][0], "maxv": new[k][1]}
+                    if j == len(changed) - 1:
+                        o["model"] = {"out": st["out"], "vol": st["vol"]}
+                    ops.append(o)
+                lims = new
+                continue
             op = _op(st["op"])
             if op["op"] == "distribute" and not st["op"]["label"]["h"]:
                 # the model's "no label" is distribute()'s default label ""
